@@ -117,7 +117,7 @@ def run_case(case) -> Outcome:
     dual_cut = P.run_dual(prog, cuts=prog["features"])
     dual_full = P.run_dual(prog)
     scale = max(dual_cut.max_abs, dual_full.max_abs)
-    if not scale < 1e6:
+    if not jdcheck.scale_ok(dtype, scale):
         out.excluded = "values-or-tangents-exceed-1e6"
         return out
     if prog["around"]:
@@ -166,7 +166,7 @@ def run_case(case) -> Outcome:
     if shared:
         if out.check(len(rec.calls) == 1, "aggregator-call-count", f"{len(rec.calls)} calls"):
             jdcheck.check_deposit(out, "shared", blocks, g.leaves, before, rec.calls[0], dtype, scale)
-    tol = jdcheck.DERIV_TOL[dtype] * max(1.0, scale) * max(1, m)
+    tol = jdcheck.deriv_tol(dtype, scale) * max(1, m)
     for p, upd in task_upd.items():
         leaf = g.leaves[p]
         if not out.check(leaf.grad is not None, "task-grad-missing", f"task leaf {p} has no .grad"):
